@@ -85,6 +85,26 @@ CLAIMED = {
              "atomicity when the compression step itself fails is not "
              "demanded; failing unlink/rmtree is not injected; fd leaks are "
              "not observed."),
+    "C11": dict(
+        category="exploration", design_ref="DESIGN.md 3/C11",
+        technique="deterministic simulation: seeded operation histories on a "
+                  "scratch store with the per-file move/delete tasks scheduled "
+                  "by the simulator, compared step by step with a reference "
+                  "model of the store",
+        text="Histories of write/overwrite/read/collect/find/move/copy/delete/"
+             "dry-run on real FileSets (pickle handler with read_args/"
+             "write_args/post_reader, gz/bz2/zip/xz suffixes, CSV, flat "
+             "NetCDF4) with target templates that change the directory layout; "
+             "after every operation the directory listing, the bytes of "
+             "untouched files and the content read back through the owning "
+             "fileset are compared with a reference model that names files "
+             "with the harness's own formatter. Histories and schedules are "
+             "sampled.",
+        note="Equality notions per handler are stated in the evidence "
+             "assumptions; NetCDF payloads are flat (pseudo groups sharing a "
+             "root dimension fail already in the pinned suite); target "
+             "templates never collide; no faults injected (none in the "
+             "property); periods avoid file boundaries."),
 }
 
 NOT_APPLICABLE = {
